@@ -99,6 +99,13 @@ def specBlocksP (e : ElR σ α β) (N : Nat) (rst yor : Bool) : σ → List (Lis
       r.1 ++ specBlocksP e N rst yor (if rst then e.reset r.2.1 else r.2.1) bs
     else if yor then (e.run s b).1 else []
 
+/-- a Run element seen as an element of `Model/C16.lean` (forgetting how much it read) -/
+def ElR.toEl (e : ElR σ α β) : El σ α β where
+  fill s _ := s
+  req s := ([], s)
+  reset := e.reset
+  run s b := ((e.run s b).1, (e.run s b).2.1)
+
 /-- an element of `Model/C16.lean` (it reads its whole block and runs into its end) -/
 def ElR.ofEl (e : El σ α β) : ElR σ α β where
   run s b := let r := e.run s b; (r.1, r.2, b.length, true)
